@@ -485,7 +485,12 @@ package transport
 // C10: any start payload (including JSON null) - no nil dereference; C03: the operation is dispatched (on the
 // goroutine) only when CreateOperationContext returned no error; C04: the subscription goroutine never lets a
 // panic escape (spawn rule).
-//@ func (*wsConnection).subscribe [C10,C03,C04,C11,C05]
+// C07 "headers of one request never leak into another": the payload of a start message is decoded into parameters
+// that hold nothing yet - in particular not the connection's header map, which every operation of the connection
+// shares and which encoding/json would merge a "headers" member of the payload into
+//@ func (*wsConnection).subscribe [C10,C03,C04,C11,C05,C07]
+//@   at! `jsonDecode(...` requires params.Headers == nil && params.Extensions == nil && params.Variables == nil
+//@   at! `assign params.Headers` requires rhs0 == c.headers
 //@   ghost drained = false
 //@   at `responses(ctx)` ghost drained = callres0 == nil
 //@   goensures @C05 panicked || drained
